@@ -2609,6 +2609,15 @@ fn evaluate_scalar_func(
                     .ok_or_else(|| QueryError::Type("GREATEST comparison failed".into()))?;
                 result = zip(gt_bool, &left, &right)?;
             }
+            // NULL if any argument is NULL: the fold above is order
+            // dependent on NULLs (a NULL comparison picks the right operand)
+            for arr in &evaluated_args {
+                if arr.null_count() > 0 || arr.data_type() == &DataType::Null {
+                    let is_null = compute::is_null(arr.as_ref())?;
+                    let nulls = arrow::array::new_null_array(result.data_type(), result.len());
+                    result = zip(&is_null, &nulls, &result)?;
+                }
+            }
             Ok(result)
         }
 
@@ -2627,6 +2636,15 @@ fn evaluate_scalar_func(
                     .downcast_ref::<BooleanArray>()
                     .ok_or_else(|| QueryError::Type("LEAST comparison failed".into()))?;
                 result = zip(lt_bool, &left, &right)?;
+            }
+            // NULL if any argument is NULL: the fold above is order
+            // dependent on NULLs (a NULL comparison picks the right operand)
+            for arr in &evaluated_args {
+                if arr.null_count() > 0 || arr.data_type() == &DataType::Null {
+                    let is_null = compute::is_null(arr.as_ref())?;
+                    let nulls = arrow::array::new_null_array(result.data_type(), result.len());
+                    result = zip(&is_null, &nulls, &result)?;
+                }
             }
             Ok(result)
         }
